@@ -286,6 +286,7 @@ impl LuaIndex for LuaMemberIndex {
         self.members.clear();
         self.in_filed.clear();
         self.owner_members.clear();
+        self.member_current_owner.clear();
     }
 }
 
